@@ -11,7 +11,10 @@ pub mod c09;
 pub mod days;
 pub mod c11;
 pub mod c14;
+pub mod c16;
+pub mod c17;
 pub mod c18;
+pub mod c20;
 
 pub fn meta(prop: &str) -> Option<Meta> {
     Some(match prop {
@@ -26,7 +29,10 @@ pub fn meta(prop: &str) -> Option<Meta> {
         "C09" => c09::meta(),
         "C11" => c11::meta(),
         "C14" => c14::meta(),
+        "C16" => c16::meta(),
+        "C17" => c17::meta(),
         "C18" => c18::meta(),
+        "C20" => c20::meta(),
         _ => return None,
     })
 }
@@ -44,7 +50,10 @@ pub fn run(prop: &str, cfg: &Cfg, rep: &mut Rep) {
         "C09" => c09::run(cfg, rep),
         "C11" => c11::run(cfg, rep),
         "C14" => c14::run(cfg, rep),
+        "C16" => c16::run(cfg, rep),
+        "C17" => c17::run(cfg, rep),
         "C18" => c18::run(cfg, rep),
+        "C20" => c20::run(cfg, rep),
         _ => panic!("unknown property {prop}"),
     }
 }
